@@ -21,7 +21,7 @@
 //   - "DELETE ends the session together with its open stream": once the DELETE was answered 200, every set-up has
 //     finished and nothing is held any more, EVERY stream of S the peer still holds open has ended — all of them,
 //     not only the one the server has registered. A stream that is still open is reported only after the server
-//     has demonstrably made progress meanwhile (a request of B answered, another DELETE of S answered 404);
+//     has demonstrably made progress meanwhile (a request of B answered, a request bearing S answered 404);
 //   - after every step that is not in flight the set of live sessions the server reports equals the model's.
 package main
 
@@ -650,12 +650,13 @@ func (o *ovRun) finish(outcome *string) bool {
 	open := awaitEnds(full, 10*time.Second)
 	if len(open) > 0 {
 		// not by time alone: the server must demonstrably have made progress while the stream stayed open
+		// (the probe bearing S is a request, not a DELETE: a probe must not be able to tidy up what the judged DELETE left behind)
 		pb := o.post(o.body("request"), o.B)
-		pd := o.del(o.S)
+		pd := o.post(o.body("request"), o.S)
 		if pb.Status == 200 && pd.Status == 404 {
 			open = awaitEnds(open, 2*time.Second)
 		} else {
-			o.inconclusive(fmt.Sprintf("%d stream(s) of the deleted session did not end within the watchdog and the server's progress could not be shown (request of B %d, DELETE of S %d)", len(open), pb.Status, pd.Status))
+			o.inconclusive(fmt.Sprintf("%d stream(s) of the deleted session did not end within the watchdog and the server's progress could not be shown (request of B %d, request bearing S %d)", len(open), pb.Status, pd.Status))
 			return false
 		}
 	}
@@ -669,7 +670,7 @@ func (o *ovRun) finish(outcome *string) bool {
 		}
 		for pos, names := range byPos {
 			ovOpenReports[pos].Add(1)
-			o.violation("DELETE|stream-still-open|"+pos, fmt.Sprintf("the DELETE of the session was answered 200, nothing is held any more, the server answers (request of the bystander 200, another DELETE of the session 404), but of the session's %d listening stream(s) the peer holds, %d (%s) are still open: %v", len(held), len(names), pos, names),
+			o.violation("DELETE|stream-still-open|"+pos, fmt.Sprintf("the DELETE of the session was answered 200, nothing is held any more, the server answers (request of the bystander 200, a request bearing the deleted id 404), but of the session's %d listening stream(s) the peer holds, %d (%s) are still open: %v", len(held), len(names), pos, names),
 				map[string]interface{}{"still_open": names})
 		}
 	}
@@ -1047,4 +1048,6 @@ func overlapLifecycle(r *vh.Run) {
 			c("overlap_parked_schedules_judged"), c("overlap_walk_schedules_judged"), c("overlap_storm_schedules_judged"), c("overlap_streams_ended_after_delete"),
 			c("overlap_refusals_404"), c("overlap_gets_conforming_served_200"), c("overlap_gets_conforming_either_200")+c("overlap_gets_conforming_either_404"))
 	}
+	// the windows inside the session-ending operations themselves: free-running, by volume (spin.go)
+	spinStorms(r)
 }
